@@ -209,3 +209,20 @@ also4("C17", "outside package config the configuration is only read: no store in
 also4("C18", "the serial-close mode is selected by streamEndNotSupportedData != nil only and that field is set only by NewStream's version test.")
 also4("C19", "HealthCheck.Start is a plain synchronous call of the start path; NewHealthCheck wires the client it was given unchanged.")
 also4("C20", "every single-operation wrapper issues its operation before any return that does not carry a known non-nil error (no cached answers); no component rewrites the shared configuration after defaulting.")
+
+# ---- rules added while triaging the mutation survey (second pass)
+def also5(pid, text):
+    t, x, r = CLAIMS[pid]
+    CLAIMS[pid] = (t, x + " ALSO DECIDED (mutation survey, second pass): " + text, r)
+
+also5("C02", "the Couchbase backend's per-vBucket reader evaluated exhaustively (document / unparsable / key-not-found / other errors); the file backend evaluated over the outcomes of reading the file; fan-out/wait discipline of the concurrent load; the create-then-upsert ladder of the checkpoint write.")
+also5("C05", "Stream.Save is Checkpoint.Save, Open starts the schedule and its loop saves under Type==auto; the checkpoint write is upsert | upsert(key not found)→create | →create(ok)→upsert with the last step's error returned.")
+also5("C06", "SetVbUUID stores its parameter unconditionally.")
+also5("C07", "the observe callback evaluated exhaustively (640 abstract states: closed × generation × five error classes × lookup × index range × outdated × branch id): Done once and first, stale → nothing, transient errors survived, other errors fatal, outdated ⇒ update both fields, then min, then dispatch; one completion per (vBucket, copy) in every observe round (0..3 copies); Start/Stop/startObserve/loadVbUUIDMap/loadVbUUID plumbing as path languages; Stop/reconfigure handshake exactly under observeTimer≠nil; reset evaluated for 0..2 replicas × 0..2 vBuckets (record count, non-nil records, round counter).")
+also5("C11", "Rebalance evaluated exhaustively over balancing × timer armed × Stop()'s answer.")
+also5("C12", "Close records its closeWithCancel argument in the flag the end listener reads before any stream is closed.")
+also5("C13", "session flags (cancel flag recorded, presence switches with polarity, finish token ⇔ ¬finishedWithEndEvent, open flag raised last / lowered by Close, schedule started); fan-out/wait discipline of the parallel close and of open-all; the mitigation stop handshake.")
+also5("C15", "Client.OpenStream is requested only when the position lookup succeeded; open-all and the concurrent checkpoint load wait for exactly their workers; an unreadable configuration snapshot (bucket identity) is fatal; the Couchbase reader stops start-up on any error but key-not-found.")
+also5("C16", "IsOpen tells the truth (open flag protocol).")
+also5("C18", "the one-by-one close loop runs in the branch where the version gate is set, the concurrent close where it is not.")
+also5("C20", "no success without confirmation in the create-then-upsert ladder.")
